@@ -83,13 +83,15 @@ CHECKS["C17"] = dict(
         "verifier's evaluation depends on every family. Numerical equality with the definition is not decided.",
    design_ref="DESIGN.md §3 C17")
 CHECKS["C07"] = dict(
-   technique="static analysis: exact integer arithmetic on constants extracted from the compiled crates (Lucas primality proof, orders), MUST-GUARDS for modulus decisions with comparison width, MIR lint for normalisation and canonical serialisation",
+   technique="static analysis: exact integer arithmetic on constants extracted from the compiled crates (Lucas primality proof, orders), MUST-GUARDS for modulus decisions with comparison width, MIR lint for normalisation and canonical serialisation, interval abstract interpretation with case splits for the representation range",
    text="Static proof per field that the published constants satisfy their defining equations (modulus proved prime, two-adicity, orders of "
         "root of unity and generator, Montgomery constants), that every checked conversion and the deserializer reject exactly the values >= M "
         "of their own field before any truncation on every accepting path, that the [0,2M) field tests raw values only after normalisation and "
-        "returns normalised integers, and that serialisation is canonical. Agreement of the arithmetic with integer arithmetic mod p for all "
-        "operands is not decided (bit-vector carry logic) — the non-canonical results of f64 double()/mul_small() found while building this "
-        "check were confirmed by running the code and repaired (see known_findings.json).",
+        "returns normalised integers, that serialisation is canonical, and (REPR) that the representation range is inductive: assuming every "
+        "incoming element is in range (f62: [0,2M); f64: canonical [0,M)), every element constructed by new/add/sub/mul/neg/double/mul_small/"
+        "inv/conversions is in range for all inputs (interval analysis with exact case splits; for f64 the range of mont_red_cst/var is an "
+        "assumption). Agreement of the arithmetic VALUES with integer arithmetic mod p is not decided (bit-vector carry logic).",
+   note="Assumption (f64 REPR): mont_red_cst / mont_red_var return values in [0, M).",
    design_ref="DESIGN.md §3 C07")
 CHECKS["C11"] = dict(
    technique="static analysis: control-dependence of the zero-copy byte view on IS_CANONICAL, monotone-counter rule with sibling cross-check, exact arithmetic on constant tables, data/control dependence of the capacity element on the input length",
